@@ -48,7 +48,7 @@ def trace_of(m, t):
 
 def run_traced(case, trace_arg, repeat=1, entry='solve_t', reset=False):
     m = sc.build_instance(case, mixins=(TracerMixin,), exo=())
-    kw = sc.opts_kwargs(case['opts'], case['tol'])
+    kw = sc.opts_kwargs(case['opts'], case['tol'], case.get('argform', 'plain'))
     tags = []
     with warnings.catch_warnings():
         warnings.simplefilter('ignore')
@@ -57,7 +57,7 @@ def run_traced(case, trace_arg, repeat=1, entry='solve_t', reset=False):
                 m = m.copy()            # a repeated solve may just as well happen on a copy: same observable object
             try:
                 if entry == 'solve_t':
-                    r = m.solve_t(case['t'], trace=trace_arg, reset=reset, **kw)
+                    r = m.solve_t(sc.t_arg(case), trace=trace_arg, reset=reset, **kw)
                 elif entry == 'solve_period':
                     t = case['t'] + case['n'] if case['t'] < 0 else case['t']
                     r = m.solve_period(t, trace=trace_arg, reset=reset, **kw)   # span is range(n): label == position
@@ -69,7 +69,7 @@ def run_traced(case, trace_arg, repeat=1, entry='solve_t', reset=False):
 
 def run_untraced(case, repeat=1):
     m = sc.build_instance(case, exo=())
-    kw = sc.opts_kwargs(case['opts'], case['tol'])
+    kw = sc.opts_kwargs(case['opts'], case['tol'], case.get('argform', 'plain'))
     tags = []
     with warnings.catch_warnings():
         warnings.simplefilter('ignore')
@@ -77,7 +77,7 @@ def run_untraced(case, repeat=1):
             if r_ and case.get('copy_between'):
                 m = m.copy()
             try:
-                r = m.solve_t(case['t'], **kw)
+                r = m.solve_t(sc.t_arg(case), **kw)
                 tags.append('ret:T' if r else 'ret:F')
             except Exception as e:  # noqa: BLE001
                 tags.append(sc.exc_name(e))
@@ -145,6 +145,9 @@ def oracle(case, trace_arg, names_idx, repeat, entry, rep, reset=False):
 def variants(rng, case):
     nE = case['nE']
     names = sc.names_of(case)
+    if case.get('mix') in ('alias', 'all') and rng.random() < 0.6:
+        # the traced variables may just as well be named through their aliases
+        names = [rng.choice(['AL_', 'AL2_', '']) + nm for nm in names]
     r = rng.random()
     if r < 0.3:
         return True, list(range(nE))
